@@ -60,7 +60,11 @@ class F2:
     self.rec = sigs.Rec('F2', (_show(a), _show(b)), (), (_show(c),), {k: _show(v) for k, v in kw.items()})
 
 
-FNS = [f0, f1, F2]
+def f3(p=None, /, a=None, b=None, *, c=None, **kw):
+  return sigs.Rec('f3', (_show(p), _show(a), _show(b)), (), (_show(c),), {k: _show(v) for k, v in kw.items()})
+
+
+FNS = [f0, f1, F2, f3]
 
 # ----------------------------------------------------------------------------- argument specs
 
@@ -217,14 +221,15 @@ def _conc(v, lo, hi):
 def c04_calls(fn: int, ka: int, kb: int, kc: int, ke: int, top: int, ncalls: int, m1: int, m2: int, m3: int,
               v: int, o1: int, o2: int) -> bool:
   """
-  fn: 0 keyword slots a, b, c + **kw entry e; 1 positional-only p, a, two *args elements, c; 2 a class.
+  fn: 0 keyword slots a, b, c + **kw entry e; 1 positional-only p, a, two *args elements, c; 2 a class; 3 a
+  positional-only parameter (slot a) in front of positional-or-keyword ones, no *args.
   top: 0 fdl.Partial at the root; 1 the Partial sits inside a Config argument list (built as part of a larger graph).
   m_i: bit 0 overrides b (fn 1: nothing), bit 1 overrides c, bit 2 overrides e (fn 1: appends a call-time positional).
-  require: 0 <= fn <= 2 and 0 <= ka <= 17 and 0 <= kb <= 17 and 0 <= kc <= 17 and 0 <= ke <= 17 and 0 <= top <= 1
+  require: 0 <= fn <= 3 and 0 <= ka <= 17 and 0 <= kb <= 17 and 0 <= kc <= 17 and 0 <= ke <= 17 and 0 <= top <= 1
   require: 1 <= ncalls <= 3 and 0 <= m1 <= 7 and 0 <= m2 <= 7 and 0 <= m3 <= 7
   """
   ka, kb, kc, ke = _conc(ka, 0, NK - 1), _conc(kb, 0, NK - 1), _conc(kc, 0, NK - 1), _conc(ke, 0, NK - 1)
-  fn, ncalls = _conc(fn, 0, 2), _conc(ncalls, 1, 3)
+  fn, ncalls = _conc(fn, 0, 3), _conc(ncalls, 1, 3)
   masks = [_conc(m1, 0, 7), _conc(m2, 0, 7), _conc(m3, 0, 7)][:ncalls]
   specs = {'a': spec(ka, v, 'A'), 'b': spec(kb, v + 1, 'B'), 'c': spec(kc, v + 2, 'C'), 'e': spec(ke, v + 3, 'E')}
   # kind 16 in another slot: that argument is the very object slot a holds (one container reachable from two arguments)
@@ -235,6 +240,9 @@ def c04_calls(fn: int, ka: int, kb: int, kc: int, ke: int, top: int, ncalls: int
   if fn == 1:
     part = fdl.Partial(f1, to_fdl(specs['a'], memo), to_fdl(specs['b'], memo), to_fdl(specs['e'], memo), v + 9,
                        c=to_fdl(specs['c'], memo))
+  elif fn == 3:
+    part = fdl.Partial(f3, to_fdl(specs['a'], memo), a=v + 9, b=to_fdl(specs['b'], memo), c=to_fdl(specs['c'], memo),
+                       e=to_fdl(specs['e'], memo))
   else:
     part = fdl.Partial(FNS[fn], a=to_fdl(specs['a'], memo), b=to_fdl(specs['b'], memo), c=to_fdl(specs['c'], memo),
                        e=to_fdl(specs['e'], memo))
@@ -290,6 +298,12 @@ def c04_calls(fn: int, ka: int, kb: int, kc: int, ke: int, top: int, ncalls: int
       kwargs['b'] = ov if m & 1 else thunks['b']()
       kwargs['c'] = ov + 1 if m & 2 else thunks['c']()
       kwargs['e'] = ov + 2 if m & 4 else thunks['e']()
+      if fn == 3:
+        pos = kwargs.pop('a')
+        r = f3(pos, a=v + 9, **kwargs)
+        rcounts.append(_nobj() - before)
+        rresults.append(r)
+        continue
       r = FNS[fn](**kwargs)
       r = r.rec if fn == 2 else r
     rcounts.append(_nobj() - before)
@@ -304,7 +318,7 @@ def c04_calls(fn: int, ka: int, kb: int, kc: int, ke: int, top: int, ncalls: int
 
 def obligations(tier, seed):
   cubes = []
-  for fn in range(3):
+  for fn in range(4):
     for ka in range(NK):
       for kb in range(NK):
         if tier == 'quick' and (ka * NK + kb + fn) % 5:
@@ -317,7 +331,7 @@ def obligations(tier, seed):
   if tier != 'quick':
     # thorough: kc symbolic, ke and the first mask by cube
     cubes = []
-    for fn in range(3):
+    for fn in range(4):
       for ka in range(NK):
         for kb in range(NK):
           for ke in range(NK):
@@ -328,5 +342,5 @@ def obligations(tier, seed):
   t = 300 if tier == 'quick' else 900
   smoke = dict(fn=0, ka=2, kb=3, kc=6, ke=7, top=0, ncalls=3, m1=0, m2=5, m3=2, v=3, o1=50, o2=60)
   return [Obligation('c04_calls', c04_calls, cubes, timeout=t, path_timeout=40, smoke=smoke,
-                     extra_smokes=[dict(smoke, fn=k % 3, ka=k, kb=(k + 4) % NK, kc=(k + 7) % NK, ke=(k + 9) % NK, top=k % 2,
+                     extra_smokes=[dict(smoke, fn=k % 4, ka=k, kb=(k + 4) % NK, kc=(k + 7) % NK, ke=(k + 9) % NK, top=k % 2,
                                         m1=k % 8, m2=(k + 3) % 8) for k in range(NK)])]
